@@ -189,4 +189,423 @@ theorem RInv.run {s : Dir} (h : RInv s) (t : List Op) (hd : RegDisc s t) : RInv 
     simp only [Dir.run, List.foldl_cons]
     exact ih (h.step op hd.1) hd.2
 
+/-! ## fine-grained collection and reader: invariant and preservation -/
+
+structure FInv (s : FSt) : Prop where
+  g : GInv s.base
+  snapJ : ∀ L, s.snap = some L → s.gcLocked = true →
+    ∀ p, s.base.managed.contains p = true → p ∈ living s.base → p ∈ L
+  metaLive : ∀ p ∈ s.metaFiles, p ∈ living s.base ∧ p ∈ s.base.dir
+  rd : ∀ F, s.rlist = some F → ∀ p ∈ F, p ∈ s.base.dir ∧ (∀ l, s.base.pending = some l → p ∉ l)
+  rlNone : s.rdLocked = false → s.rlist = none
+  excl : s.gcLocked = true → s.rdLocked = false
+
+theorem living_track (s : St) (fs : List Path) (p : Path) :
+    p ∈ living (s.step (.track fs)) ↔ p ∈ fs ∨ p ∈ living s := by
+  simp only [living, St.step, List.flatten_cons, List.mem_cons, List.mem_append]
+  constructor
+  · rintro (h | h | h)
+    · exact Or.inr (Or.inl h)
+    · exact Or.inl h
+    · exact Or.inr (Or.inr h)
+  · rintro (h | h | h)
+    · exact Or.inr (Or.inl h)
+    · exact Or.inl h
+    · exact Or.inr (Or.inr h)
+
+theorem living_drop (s : St) (i : Nat) (p : Path) (h : p ∈ living (s.step (.drop i))) : p ∈ living s := by
+  simp only [living, St.step, List.mem_cons] at h ⊢
+  rcases h with h | h
+  · exact Or.inl h
+  · exact Or.inr (mem_flatten_eraseIdx _ _ _ h)
+
+theorem gcDelete_dir (s : St) (q : Path) (ok : Bool) (p : Path) (hp : p ∈ s.dir)
+    (hq : ∀ l, s.pending = some l → q ∈ l → p ≠ q) : p ∈ (s.step (.gcDelete q ok)).dir := by
+  simp only [St.step]
+  cases hpend : s.pending with
+  | none => simpa using hp
+  | some l =>
+    simp only []
+    by_cases hc : q ∈ l
+    · have hne := hq l hpend hc
+      cases ok with
+      | true => simp [hc, hp, hne]
+      | false => simp [hc, hp]
+    · simp [hc, hp]
+
+theorem gcDelete_pending (s : St) (q : Path) (ok : Bool) (l' : List Path)
+    (h : (s.step (.gcDelete q ok)).pending = some l') : ∃ l, s.pending = some l ∧ ∀ p ∈ l', p ∈ l := by
+  simp only [St.step] at h
+  cases hpend : s.pending with
+  | none => simp [hpend] at h
+  | some l =>
+    simp only [hpend] at h
+    refine ⟨l, rfl, ?_⟩
+    by_cases hc : l.contains q = true
+    · cases ok with
+      | true =>
+        simp only [hc, if_true, Option.some.injEq] at h
+        subst h
+        intro p hp; exact (List.mem_filter.mp hp).1
+      | false =>
+        simp only [hc, if_true, Bool.false_eq_true, if_false, Option.some.injEq] at h
+        subst h
+        intro p hp; exact (List.mem_filter.mp hp).1
+    · simp only [hc, Bool.false_eq_true, if_false] at h
+      rw [hpend] at h
+      simp only [Option.some.injEq] at h
+      subst h
+      intro p hp; exact hp
+
+theorem gcFinish_dir (s : St) : (s.step .gcFinish).dir = s.dir := by
+  simp only [St.step]
+  cases s.pending with
+  | none => rfl
+  | some l => cases l <;> rfl
+
+theorem gcFinish_pending (s : St) (l' : List Path) (h : (s.step .gcFinish).pending = some l') :
+    s.pending = some l' := by
+  simp only [St.step] at h
+  cases hpend : s.pending with
+  | none => simp [hpend] at h
+  | some l =>
+    cases l with
+    | nil => simp [hpend] at h
+    | cons a t => simpa [hpend] using h
+
+theorem living_gcFinish (s : St) : living (s.step .gcFinish) = living s := by
+  simp only [St.step, living]
+  cases s.pending with
+  | none => rfl
+  | some l => cases l <;> rfl
+
+theorem living_gcDelete (s : St) (q : Path) (ok : Bool) : living (s.step (.gcDelete q ok)) = living s := by
+  simp only [St.step, living]
+  cases s.pending with
+  | none => rfl
+  | some l =>
+    simp only []
+    by_cases hc : q ∈ l
+    · cases ok <;> simp [hc]
+    · simp [hc]
+
+
+theorem FInv.step {s : FSt} (h : FInv s) (e : FEv) (hok : okF true true s e = true) : FInv (s.step e) := by
+  cases e with
+  | track fs =>
+    simp only [okF] at hok
+    refine ⟨h.g.step _ hok, ?_, ?_, h.rd, h.rlNone, h.excl⟩
+    · intro L hL hl p hm hp
+      rcases (living_track s.base fs p).mp hp with hf | hlv
+      · simp only [okEv, List.all_eq_true] at hok
+        have := hok p hf
+        simp only [show (s.base.managed.contains p) = true from hm, Bool.not_true, Bool.false_or] at this
+        exact h.snapJ L hL hl p hm (by simpa using this)
+      · exact h.snapJ L hL hl p hm hlv
+    · intro p hp
+      exact ⟨(living_track s.base fs p).mpr (Or.inr (h.metaLive p hp).1), (h.metaLive p hp).2⟩
+  | drop i =>
+    simp only [okF, List.all_eq_true] at hok
+    refine ⟨h.g.step (.drop i) rfl, ?_, ?_, h.rd, h.rlNone, h.excl⟩
+    · intro L hL hl p hm hp
+      exact h.snapJ L hL hl p hm (living_drop s.base i p hp)
+    · intro p hp
+      exact ⟨by simpa [FSt.step] using hok p hp, (h.metaLive p hp).2⟩
+  | openWrite q =>
+    simp only [okF, Bool.and_eq_true, Bool.not_eq_true'] at hok
+    refine ⟨h.g.step _ hok.1, ?_, ?_, ?_, h.rlNone, h.excl⟩
+    · intro L _ hl
+      simp only [FSt.step] at hl
+      rw [hok.2] at hl
+      cases hl
+    · intro p hp
+      refine ⟨(h.metaLive p hp).1, ?_⟩
+      simp only [FSt.step, St.step, mem_insertP]
+      exact Or.inr (h.metaLive p hp).2
+    · intro F hF p hp
+      obtain ⟨h1, h2⟩ := h.rd F hF p hp
+      refine ⟨?_, h2⟩
+      simp only [FSt.step, St.step, mem_insertP]
+      exact Or.inr h1
+  | publish fs =>
+    simp only [okF, List.all_eq_true, Bool.and_eq_true] at hok
+    refine ⟨h.g, h.snapJ, ?_, h.rd, h.rlNone, h.excl⟩
+    intro p hp
+    have := hok p hp
+    exact ⟨by simpa [FSt.step] using this.1, by simpa [FSt.step] using this.2⟩
+  | gLock =>
+    simp only [okF, Bool.and_eq_true, Bool.not_eq_true', Option.isNone_iff_eq_none, Bool.not_true,
+      Bool.false_or] at hok
+    refine ⟨h.g, ?_, h.metaLive, h.rd, h.rlNone, fun _ => hok.1.1.2⟩
+    intro L hL
+    simp only [FSt.step] at hL
+    rw [hok.2] at hL
+    cases hL
+  | gLiving =>
+    refine ⟨h.g, ?_, h.metaLive, h.rd, h.rlNone, h.excl⟩
+    intro L hL _ p _ hp
+    simp only [FSt.step, Option.some.injEq] at hL
+    subst hL
+    exact hp
+  | gSelect =>
+    simp only [okF, Bool.and_eq_true, Option.isNone_iff_eq_none] at hok
+    obtain ⟨⟨hlock, hsnap⟩, _⟩ := hok
+    obtain ⟨L, hL⟩ := Option.isSome_iff_exists.mp hsnap
+    refine ⟨?_, ?_, h.metaLive, ?_, h.rlNone, h.excl⟩
+    · intro l hl p hp
+      simp only [FSt.step, Option.some.injEq] at hl
+      subst hl
+      simp only [hL, Option.getD_some, List.mem_filter, Bool.not_eq_true', List.contains_eq_mem,
+        decide_eq_false_iff_not] at hp
+      have hm : s.base.managed.contains p = true := by simpa using hp.1
+      refine ⟨by simpa [FSt.step] using hp.1, ?_⟩
+      intro hlv
+      exact hp.2 (h.snapJ L hL hlock p hm (by simpa [FSt.step, living] using hlv))
+    · intro L' hL' hl p hm hp
+      exact h.snapJ L' (by simpa [FSt.step] using hL') hlock p (by simpa [FSt.step] using hm)
+        (by simpa [FSt.step, living] using hp)
+    · intro F hF
+      have hr := h.excl hlock
+      have := h.rlNone hr
+      simp only [FSt.step] at hF
+      rw [this] at hF
+      cases hF
+  | gUnlock =>
+    refine ⟨h.g, ?_, h.metaLive, h.rd, h.rlNone, ?_⟩
+    · intro L hL
+      simp [FSt.step] at hL
+    · intro hl
+      simp [FSt.step] at hl
+  | gDelete q ok =>
+    simp only [okF, Bool.and_eq_true, Bool.not_eq_true'] at hok
+    have hq : ∀ l, s.base.pending = some l → q ∈ l → q ∉ living s.base :=
+      fun l hl hql => (h.g l hl q hql).2
+    refine ⟨h.g.step _ hok.2, ?_, ?_, ?_, h.rlNone, h.excl⟩
+    · intro L _ hl
+      simp only [FSt.step] at hl
+      rw [hok.1] at hl
+      cases hl
+    · intro p hp
+      obtain ⟨h1, h2⟩ := h.metaLive p hp
+      refine ⟨by simpa [FSt.step, living_gcDelete] using h1, ?_⟩
+      apply gcDelete_dir _ _ _ _ h2
+      intro l hl hql hpq
+      exact hq l hl hql (hpq ▸ h1)
+    · intro F hF p hp
+      obtain ⟨h1, h2⟩ := h.rd F hF p hp
+      refine ⟨?_, ?_⟩
+      · apply gcDelete_dir _ _ _ _ h1
+        intro l hl hql hpq
+        exact h2 l hl (hpq ▸ hql)
+      · intro l' hl' hpl
+        obtain ⟨l, hl, hsub⟩ := gcDelete_pending _ _ _ _ hl'
+        exact h2 l hl (hsub p hpl)
+  | gFinish =>
+    simp only [okF, Bool.not_eq_true'] at hok
+    refine ⟨h.g.step .gcFinish rfl, ?_, ?_, ?_, h.rlNone, h.excl⟩
+    · intro L _ hl
+      simp only [FSt.step] at hl
+      rw [hok] at hl
+      cases hl
+    · intro p hp
+      obtain ⟨h1, h2⟩ := h.metaLive p hp
+      exact ⟨by simpa [FSt.step, living_gcFinish] using h1, by simpa [FSt.step, gcFinish_dir] using h2⟩
+    · intro F hF p hp
+      obtain ⟨h1, h2⟩ := h.rd F hF p hp
+      refine ⟨by simpa [FSt.step, gcFinish_dir] using h1, ?_⟩
+      intro l' hl'
+      exact h2 l' (gcFinish_pending _ _ hl')
+  | rLock =>
+    simp only [okF, Bool.and_eq_true, Bool.not_eq_true'] at hok
+    refine ⟨h.g, h.snapJ, h.metaLive, h.rd, ?_, ?_⟩
+    · intro hl
+      simp [FSt.step] at hl
+    · intro hl
+      simp only [FSt.step] at hl
+      rw [hok.1] at hl
+      cases hl
+  | rList =>
+    refine ⟨h.g, h.snapJ, h.metaLive, ?_, ?_, h.excl⟩
+    · intro F hF p hp
+      simp only [FSt.step, Option.some.injEq] at hF
+      subst hF
+      obtain ⟨h1, h2⟩ := h.metaLive p hp
+      refine ⟨h2, ?_⟩
+      intro l hl hpl
+      exact (h.g l hl p hpl).2 h1
+    · intro hl
+      simp only [okF, Bool.not_true, Bool.false_or] at hok
+      simp only [FSt.step] at hl
+      rw [hok] at hl
+      cases hl
+  | rOpen q => exact h
+  | rUnlock =>
+    refine ⟨h.g, h.snapJ, h.metaLive, ?_, ?_, ?_⟩
+    · intro F hF
+      simp [FSt.step] at hF
+    · intro _
+      simp [FSt.step]
+    · intro _
+      simp [FSt.step]
+
+theorem FInv.safe {s : FSt} (h : FInv s) (evs : List FEv) (hd : FDisc true true s evs = true) :
+    FSafe s evs := by
+  induction evs generalizing s with
+  | nil => trivial
+  | cons e es ih =>
+    simp only [FDisc, Bool.and_eq_true] at hd
+    refine ⟨?_, ih (h.step e hd.1) hd.2⟩
+    cases e with
+    | gDelete p ok =>
+      simp only [okF, Bool.and_eq_true, okEv] at hd
+      cases hpend : s.base.pending with
+      | none => simp [hpend] at hd
+      | some l =>
+        simp only [hpend] at hd
+        exact (h.g l hpend p (by simpa using hd.1.2)).2
+    | rOpen p =>
+      simp only [okF, Bool.and_eq_true] at hd
+      cases hr : s.rlist with
+      | none => simp [hr] at hd
+      | some F =>
+        simp only [hr, Option.getD_some] at hd
+        exact (h.rd F hr p (by simpa using hd.1.2)).1
+    | _ => trivial
+
+theorem lookupD_of_mem_nodup {α : Type} (l : List (Path × Option α)) (hn : (l.map Prod.fst).Nodup)
+    (p : Path) (v : Option α) (h : (p, v) ∈ l) : lookupD l p = v := by
+  induction l with
+  | nil => cases h
+  | cons e t ih =>
+    obtain ⟨q, w⟩ := e
+    simp only [List.map_cons, List.nodup_cons] at hn
+    unfold lookupD
+    simp only [List.lookup_cons]
+    rcases List.mem_cons.mp h with he | ht
+    · cases he
+      simp
+    · have hne : p ≠ q := by
+        intro e
+        apply hn.1
+        rw [← e]
+        exact List.mem_map.mpr ⟨(p, v), ht, rfl⟩
+      have : (p == q) = false := by simpa using hne
+      simp only [this]
+      exact ih hn.2 ht
+
+/-! ## the delete loop: small steps vs `fullGC` -/
+
+theorem mem_dedup (l : List Path) (p : Path) : p ∈ dedup l ↔ p ∈ l := by
+  induction l with
+  | nil => simp [dedup]
+  | cons a t ih =>
+    simp only [dedup, List.mem_cons, List.mem_filter, bne_iff_ne, ne_eq, ih]
+    by_cases h : p = a <;> simp [h]
+
+theorem nodup_dedup (l : List Path) : (dedup l).Nodup := by
+  induction l with
+  | nil => simp [dedup]
+  | cons a t ih =>
+    simp only [dedup, List.nodup_cons, List.mem_filter, bne_iff_ne, ne_eq, not_and, Decidable.not_not]
+    exact ⟨fun _ => trivial, ih.filter _⟩
+
+/-- state of the delete loop after the paths in `done` have been processed -/
+structure LoopInv (s0 : St) (T fails done : List Path) (st : St) : Prop where
+  pending : st.pending = some (T.filter (fun p => !done.contains p))
+  managed : st.managed = s0.managed
+  live : st.live = s0.live
+  dir : ∀ p, p ∈ st.dir ↔ p ∈ s0.dir ∧ ¬(p ∈ done ∧ p ∈ T ∧ p ∉ fails)
+  deleted : ∀ p, p ∈ st.deleted ↔ p ∈ done ∧ p ∈ T ∧ p ∉ fails
+
+theorem filter_filter_ne (T done : List Path) (q : Path) :
+    (T.filter (fun p => !done.contains p)).filter (· != q) = T.filter (fun p => !(done ++ [q]).contains p) := by
+  rw [List.filter_filter]
+  apply List.filter_congr
+  intro p _
+  by_cases h1 : p = q <;> by_cases h2 : p ∈ done <;> simp [h1, h2]
+
+theorem LoopInv.step {s0 : St} {T fails done : List Path} {st : St} (h : LoopInv s0 T fails done st)
+    (q : Path) (hq : q ∈ T) (hnd : q ∉ done) :
+    LoopInv s0 T fails (done ++ [q]) (st.step (.gcDelete q (!fails.contains q))) := by
+  have hmem : q ∈ T.filter (fun p => !done.contains p) := by
+    simp [List.mem_filter, hq, hnd]
+  have hc : (T.filter (fun p => !done.contains p)).contains q = true := by simpa using hmem
+  by_cases hf : q ∈ fails
+  · have hfb : (!fails.contains q) = false := by simp [hf]
+    refine ⟨?_, ?_, ?_, ?_, ?_⟩
+    · simp only [St.step, h.pending, hc, if_true, hfb, Bool.false_eq_true, if_false, filter_filter_ne]
+    · simp only [St.step, h.pending, hc, if_true, hfb, Bool.false_eq_true, if_false]; exact h.managed
+    · simp only [St.step, h.pending, hc, if_true, hfb, Bool.false_eq_true, if_false]; exact h.live
+    · intro p
+      simp only [St.step, h.pending, hc, if_true, hfb, Bool.false_eq_true, if_false]
+      rw [h.dir p]
+      simp only [List.mem_append, List.mem_singleton]
+      constructor
+      · rintro ⟨h1, h2⟩
+        refine ⟨h1, ?_⟩
+        rintro ⟨hd | hd, hT, hnf⟩
+        · exact h2 ⟨hd, hT, hnf⟩
+        · subst hd; exact hnf hf
+      · rintro ⟨h1, h2⟩
+        exact ⟨h1, fun ⟨hd, hT, hnf⟩ => h2 ⟨Or.inl hd, hT, hnf⟩⟩
+    · intro p
+      simp only [St.step, h.pending, hc, if_true, hfb, Bool.false_eq_true, if_false]
+      rw [h.deleted p]
+      simp only [List.mem_append, List.mem_singleton]
+      constructor
+      · rintro ⟨hd, hT, hnf⟩; exact ⟨Or.inl hd, hT, hnf⟩
+      · rintro ⟨hd | hd, hT, hnf⟩
+        · exact ⟨hd, hT, hnf⟩
+        · subst hd; exact absurd hf hnf
+  · have hfb : (!fails.contains q) = true := by simp [hf]
+    refine ⟨?_, ?_, ?_, ?_, ?_⟩
+    · simp only [St.step, h.pending, hc, if_true, hfb, filter_filter_ne]
+    · simp only [St.step, h.pending, hc, if_true, hfb]; exact h.managed
+    · simp only [St.step, h.pending, hc, if_true, hfb]; exact h.live
+    · intro p
+      simp only [St.step, h.pending, hc, if_true, hfb, List.mem_filter, bne_iff_ne, ne_eq]
+      rw [h.dir p]
+      simp only [List.mem_append, List.mem_singleton]
+      constructor
+      · rintro ⟨⟨h1, h2⟩, hne⟩
+        refine ⟨h1, ?_⟩
+        rintro ⟨hd | hd, hT, hnf⟩
+        · exact h2 ⟨hd, hT, hnf⟩
+        · exact hne hd
+      · rintro ⟨h1, h2⟩
+        refine ⟨⟨h1, fun ⟨hd, hT, hnf⟩ => h2 ⟨Or.inl hd, hT, hnf⟩⟩, ?_⟩
+        intro hpq
+        subst hpq
+        exact h2 ⟨Or.inr rfl, hq, hf⟩
+    · intro p
+      simp only [St.step, h.pending, hc, if_true, hfb, List.mem_cons]
+      rw [h.deleted p]
+      simp only [List.mem_append, List.mem_singleton]
+      constructor
+      · rintro (hpq | ⟨hd, hT, hnf⟩)
+        · subst hpq; exact ⟨Or.inr rfl, hq, hf⟩
+        · exact ⟨Or.inl hd, hT, hnf⟩
+      · rintro ⟨hd | hd, hT, hnf⟩
+        · exact Or.inr ⟨hd, hT, hnf⟩
+        · exact Or.inl hd
+
+theorem LoopInv.run {s0 : St} {T fails : List Path} (D : List Path) (hD : ∀ q ∈ D, q ∈ T) (hn : D.Nodup)
+    (done : List Path) (hdis : ∀ q ∈ D, q ∉ done) (st : St) (h : LoopInv s0 T fails done st) :
+    LoopInv s0 T fails (done ++ D) (st.run (D.map (fun p => Ev.gcDelete p (!fails.contains p)))) := by
+  induction D generalizing done st with
+  | nil => simpa [St.run] using h
+  | cons q t ih =>
+    simp only [List.nodup_cons] at hn
+    have h1 := h.step q (hD q (by simp)) (hdis q (by simp))
+    have := ih (fun x hx => hD x (by simp [hx])) hn.2 (done ++ [q])
+      (by
+        intro x hx hxd
+        rcases List.mem_append.mp hxd with hxd | hxd
+        · exact hdis x (by simp [hx]) hxd
+        · simp only [List.mem_singleton] at hxd
+          subst hxd
+          exact hn.1 hx)
+      _ h1
+    simpa [St.run, List.append_assoc] using this
+
 end TantivyModel.GC
